@@ -12,7 +12,7 @@ META = dict(
 OBLIGATIONS = []
 for (pl, tl, cl, tier) in [(2, 2, 1, 'qt'), (3, 2, 0, 'qt'), (2, 3, 1, 't'), (3, 3, 1, 't'), (3, 3, 0, 't')]:
     OBLIGATIONS.append(O('C19.a-quads-p%d-t%d-%s' % (pl, tl, 'closed' if cl else 'open'), 'c19_mink.cpp', 'harness_minkowski', defs=['PL=%d' % pl, 'TL=%d' % tl, 'CLOSED=%d' % cl],
-                         replace=ISPOS, nsw=True, unwind=6, backend=['sat', 'cadical'], tiers=tier, timeout=None if tier == 'qt' else 1800,
+                         replace=ISPOS, nsw=True, unwind=max(6, pl * tl + 2), backend=['sat', 'cadical'], tiers=tier, timeout=None if tier == 'qt' else 1800,
                          bound='pattern %d pts, path %d pts, %s, sum and difference, |coord|<=2^40' % (pl, tl, 'closed' if cl else 'open'),
                          desc='result == parallelograms in construction order, reversed iff negatively oriented; no signed overflow'))
 OBLIGATIONS += [
